@@ -7,7 +7,7 @@ sys.path.insert(0, os.path.dirname(os.path.abspath(__file__)))
 import common
 common.ensure_impl_python()
 import spydrnet as sdn
-import netgen, ir_run, ir_oracles, elab
+import netgen, ir_run, ir_oracles, elab, coq_eval
 from ir_world import World, REL, REL_PARENT, REL_CHILD, _OuterPin
 from ir_gen import Gen
 
@@ -544,6 +544,8 @@ def run_case(prop, seed, case):
 
 
 QUICK = {'C07': 120, 'C08': 120, 'C09': 120}
+# extraction/driver cross-check against `Eval vm_compute` (harness/coq_eval.py): number of cases per run
+XCHECK = {'quick': 40, 'thorough': 500}
 THOROUGH = {'C07': 2500, 'C08': 2500, 'C09': 2500}
 
 
@@ -552,6 +554,9 @@ def run(prop, tier, seed, replay):
     rep = common.Reporter(prop)
     if replay:
         obj = json.load(open(replay))
+        rc = coq_eval.replay(prop, obj, replay)
+        if rc is not None:
+            return rc
         if 'case' in obj:
             res = run_case(prop, obj['seed'], obj['case'])
             model = run_model([res['ops']])[0]
@@ -617,14 +622,26 @@ def run(prop, tier, seed, replay):
                                'what': 'model (coq/theories/Xform/*.v, IR/*.v; theorems of Props/%s.v) and implementation disagree; the property oracle found no failing input on this case' % prop,
                                'step': dis[0], 'op': ' '.join(res['ops'][dis[0]]) if dis[0] < len(res['ops']) else None,
                                'first_difference': dis[1], 'ops': [' '.join(o) for o in res['ops']]}, found_input=False)
+    # extraction + driver glue cross-checked against the kernel's evaluator on an evenly spread sample of the same cases
+    want = XCHECK[tier]
+    xc_sample = [r for r in results if r['ops']][::max(1, len(results) // want)][:want]
+    xc_res = coq_eval.check_digests('xform', [r['ops'] for r in xc_sample],
+                                    weights=[len(r['dumps'][-1].split(' | ')) ** 2 if r['dumps'] else 1 for r in xc_sample])
+    for m in xc_res['mismatches']:
+        if m.get('case') is not None:
+            m['source'] = 'generated case %d of seed %d' % (xc_sample[m['case']]['case'], seed)
+    xc_ev = coq_eval.report(rep, prop, 'xform', xc_res)
+
     wall = time.time() - t0
     theorems = proof['theorems']
     coverage = {
         'obligations': len(theorems), 'discharged': len(theorems) if (ok and proof['ok']) else 0,
         'checker_cmd': 'cd /verif && tools/build.sh && ' + proof['cmd'],
+        'extraction_crosscheck': xc_ev,
         'trusted_base': [
             'Coq 8.16.1 kernel; Print Assumptions of the theorems in Props/%s.v: %s' % (prop, 'Closed under the global context' if 'Axioms' not in proof['assumptions'] else 'see print_assumptions'),
             'extraction (ExtrOcamlBasic only), ocaml/driver_xform.ml, harness/xform_check.py, harness/elab.py, harness/netgen.py, harness/ir_world.py',
+            coq_eval.trusted_base_line('xform', xc_ev),
             'hand-written model coq/theories/Xform/{Clone,Xform}.v + IR/*.v, tied to /repo only by this correspondence run',
         ],
         'theorems': theorems, 'print_assumptions': proof['assumptions'][-2500:],
@@ -639,6 +656,8 @@ def run(prop, tier, seed, replay):
     common.write_evidence(prop, tier, seed, coverage, wall, len(rep.violations),
                           ['netlists are well-formed (built by netgen); names ASCII',
                            'module-level counters of uniquify.py/flatten.py are reset to 0 at the start of each case on both sides'])
-    print('%s %s: %d cases, %d steps, %d disagreements, %d oracle failures (%d known), proof %s (%d theorems), %.1fs' % (
-        prop, tier, len(results), steps, n_dis, n_or, n_known, 'ok' if (ok and proof['ok']) else 'BROKEN', len(theorems), wall))
+    print('%s %s: %d cases, %d steps, %d disagreements, %d oracle failures (%d known), proof %s (%d theorems), '
+          'extraction cross-check %d cases / %d mismatches (%.1fs), %.1fs' % (
+              prop, tier, len(results), steps, n_dis, n_or, n_known, 'ok' if (ok and proof['ok']) else 'BROKEN', len(theorems),
+              xc_ev['cases'], xc_ev['mismatches'], xc_ev['wall_s'], wall))
     return rep.exit_code()
